@@ -137,6 +137,7 @@ fn relation_class(p: &Pair, host: &str) -> &'static str {
         Some(r) if host.ends_with(&format!(".{r}")) => "label-suffix",
         Some(r) if host.ends_with(r.as_str()) => "char-suffix",
         Some(r) if r.ends_with(&format!(".{host}")) => "host-is-parent-of-id",
+        Some(r) if host.contains(&format!(".{r}.")) || host.starts_with(&format!("{r}.")) => "labels-inside-the-host",
         Some(r) if r.eq_ignore_ascii_case(host) => "case-variant",
         Some(_) => "unrelated",
     }
@@ -221,7 +222,7 @@ fn verify_pair(rep: &mut Report, reference: &Reference, log: &std::sync::Arc<Log
         p.custom,
         matches!(verdict, RefVerdict::Accept(_))
     );
-    let nontrivial = matches!(rel, "label-suffix" | "char-suffix" | "case-variant" | "host-is-parent-of-id")
+    let nontrivial = matches!(rel, "label-suffix" | "char-suffix" | "case-variant" | "host-is-parent-of-id" | "labels-inside-the-host")
         || p.tag.starts_with("psl")
         || host.contains("xn--")
         || host == "localhost"
@@ -461,7 +462,7 @@ fn generate(args: &Args, psl: &RefPsl, rng: &mut Rng) -> Vec<Pair> {
         "shop.example.org", "x.shop.example.org", "internal.corp", "app.internal.corp", "xn--bcher-kva.de",
         "www.xn--bcher-kva.de", "a.xn--55qx5d.cn", "xn--55qx5d.cn", "localhost", "app.localhost", "com", "co.uk",
         "example.co.uk", "www.ck", "foo.www.ck", "a.b.kobe.jp", "city.kobe.jp", "x.city.kobe.jp", "github.io",
-        "user.github.io", "example.com.", "127.0.0.1", "[::1]", "1.2.3.4", "future.1password.com", "notexample.co.uk",
+        "user.github.io", "example.com.", "www.example.com.evil.net", "example.com.evil.net", "github.io.attacker.org", "127.0.0.1", "[::1]", "1.2.3.4", "future.1password.com", "notexample.co.uk",
     ];
     let schemes: Vec<&str> = vec!["https", "HTTPS", "http", "ws", "wss", "ftp"];
     for host in &hosts {
@@ -475,6 +476,16 @@ fn generate(args: &Args, psl: &RefPsl, rng: &mut Rng) -> Vec<Pair> {
         // the host is a parent domain of the RP ID (RP ID has more labels than the origin host)
         rps.push((Some(format!("login.{host}")), "host-is-parent-of-id"));
         rps.push((Some(format!("a.b.{host}")), "host-is-parent-of-id"));
+        // runs of the host's labels that do not reach its end (the RP ID occurs inside or at the front
+        // of the host: `www.example.com.evil.net` is not a page of `example.com`)
+        {
+            let labels: Vec<&str> = host.split('.').collect();
+            for i in 0..labels.len() {
+                for j in i + 1..labels.len() {
+                    rps.push((Some(labels[i..j].join(".")), "labels-inside-the-host"));
+                }
+            }
+        }
         rps.push((Some(format!(".{host}")), "leading-dot"));
         rps.push((Some(format!("{host}.")), "trailing-dot"));
         for s in label_suffixes(host).into_iter().take(2) {
